@@ -210,5 +210,5 @@ def run_case(d):
 
 
 SUBCHECKS = [
-    SubCheck("pause", run_case, strategy=st_case, quick=1200, thorough=20000),
+    SubCheck("pause", run_case, strategy=st_case, quick=3000, thorough=80000),
 ]
